@@ -2,9 +2,10 @@ package main
 
 import (
 	"bytes"
-	"time"
 	"fmt"
+	stdslog "log/slog"
 	"strings"
+	"time"
 
 	"github.com/hedzr/logg/slog"
 
@@ -23,6 +24,7 @@ type c04case struct {
 	caller   bool
 	kvs      []gen.KV
 	attrVals int
+	dups     int
 }
 
 func c04gen(r *gen.R) c04case {
@@ -82,11 +84,25 @@ func c04gen(r *gen.R) c04case {
 		}
 		c.kvs = append(c.kvs, gen.KV{Key: key, Val: v})
 	}
+	// a long list may give a key twice: the member then holds the LAST value given (C07's rule; the record stays one
+	// valid object with one member per key either way)
+	if n >= 13 && r.P(60) {
+		for d := r.Range(1, 3); d > 0; d-- {
+			j := r.Intn(n)
+			if c.kvs[j].Key == "" {
+				continue
+			}
+			c.kvs = append(c.kvs, gen.KV{Key: c.kvs[j].Key, Val: r.Scalar(gen.Pick(r, []string{"str", "i", "bool", "f64"}), o)})
+			c.dups++
+		}
+		r.Shuffle(len(c.kvs), func(i, j int) { c.kvs[i], c.kvs[j] = c.kvs[j], c.kvs[i] })
+	}
 	return c
 }
 
 func c04main(c *Ctx) {
 	gen.ExtremeTimes = true
+	gen.TypedNilErrors = true
 	log := mon.NewLog()
 	w := mon.New(log, "W", mon.ShapePlain)
 	c.Each(func(idx int, r *gen.R) {
@@ -122,7 +138,42 @@ func c04main(c *Ctx) {
 		// a third of the records carry an instant of their own (WriteThru): the time member then decodes to that instant
 		tsKnown := desc0 == "-" && !cs.caller && r.P(30)
 		ts := r.Time()
+		// one record in sixteen goes through the log/slog front end: a handler derived step by step (WithAttrs), from
+		// whose last step two siblings are derived; the record goes through the OLDER sibling after the younger exists
+		viaHandler := r.P(6)
+		var older stdslog.Handler
+		var rec stdslog.Record
+		if viaHandler {
+			tsKnown = false
+			cs.caller, cs.lvl, cs.attrVals, cs.dups = false, slog.InfoLevel, 0, 0
+			h := slog.NewSlogHandler(lg, &slog.HandlerOptions{JSON: true, NoColor: true, NoSource: true, Level: slog.PanicLevel})
+			steps := gen.Pick(r, []int{0, 1, 2, 3, 4, 5, 6, 7, 9, 11})
+			var kvs []gen.KV
+			for i := 0; i < steps; i++ {
+				a, kv := c15attr(r, fmt.Sprintf("h%d~", i), 3)
+				h = h.WithAttrs([]stdslog.Attr{a})
+				kvs = append(kvs, kv)
+			}
+			a1, kv1 := c15attr(r, "older~", 3)
+			older = h.WithAttrs([]stdslog.Attr{a1})
+			a2, _ := c15attr(r, "younger~", 3)
+			_ = h.WithAttrs([]stdslog.Attr{a2})
+			kvs = append(kvs, kv1)
+			rec = stdslog.NewRecord(ts, stdslog.LevelInfo, cs.msg, 0)
+			for j := r.Intn(4); j > 0; j-- {
+				a, kv := c15attr(r, fmt.Sprintf("r%d~", j), 0)
+				rec.AddAttrs(a)
+				kvs = append(kvs, kv)
+			}
+			cs.kvs = kvs
+			c.R.Add("records_through_a_derived_log_slog_handler_with_a_younger_sibling", 1)
+			c.R.Max("handler_derivation_steps", int64(steps+1))
+		}
 		evs := capture(log, func() {
+			if viaHandler {
+				_ = older.Handle(bg, rec)
+				return
+			}
 			if tsKnown {
 				lg.WriteThru(bg, cs.lvl, ts, thePC, cs.msg, attrsOf(cs.kvs))
 				return
@@ -133,7 +184,10 @@ func c04main(c *Ctx) {
 		if tsKnown {
 			desc["record_instant"] = ts.Format(time.RFC3339Nano)
 		}
-		desc["logger_timestamp_options"] = desc0
+		desc["logger_timestamp_options"], desc["through_log_slog_handler"], desc["keys_given_twice"] = desc0, viaHandler, cs.dups
+		if cs.dups > 0 {
+			c.R.Add("records_of_13_or_more_attributes_with_a_key_given_twice", 1)
+		}
 		desc["other_flags"], desc["same_logger_logged_before_in"] = otherFlags, []string{"-", "-", "logfmt", "color", "json", "a record that panicked while being formatted (recovered)"}[warm]
 		c.R.Distinct("same_logger_logged_before_in", []string{"-", "-", "logfmt", "color", "json", "a record that panicked while being formatted (recovered)"}[warm])
 		c.R.Add("write_events", int64(len(evs)))
